@@ -543,9 +543,35 @@ func singleStoredValue(a *ssa.Alloc) ssa.Value {
 	}
 	visit(a.Referrers(), a)
 	if ok && n == 1 {
-		if _, isParamOrVal := stored.(ssa.Value); isParamOrVal {
-			return stored
+		// the one store must be the initialising one: in the allocating function it
+		// dominates every load, and it does not read the cell it writes (x = x + 1)
+		var storeInstr *ssa.Store
+		for _, r := range *a.Referrers() {
+			if st, isSt := r.(*ssa.Store); isSt && st.Addr == ssa.Value(a) {
+				storeInstr = st
+			}
 		}
+		if storeInstr == nil {
+			return nil // the single store lives in a closure: a mutable captured variable
+		}
+		for _, r := range *a.Referrers() {
+			if ld, isLd := r.(*ssa.UnOp); isLd {
+				if !storeInstr.Block().Dominates(ld.Block()) {
+					return nil
+				}
+				if ld.Block() == storeInstr.Block() {
+					for _, in := range ld.Block().Instrs {
+						if in == ssa.Instruction(ld) {
+							return nil // load before the store in the same block
+						}
+						if in == ssa.Instruction(storeInstr) {
+							break
+						}
+					}
+				}
+			}
+		}
+		return stored
 	}
 	return nil
 }
